@@ -452,7 +452,6 @@ func declaredInputsRule(c *Ctx, r *Report, rule string, pick func(ai accessorInp
 	}
 }
 
-
 // expandKeyAlternatives: a map key that is one of several constants (an entry of a local literal table
 // walked by a loop) is written [a|b] in an access path; the path stands for one path per alternative.
 func expandKeyAlternatives(p string) []string {
